@@ -555,6 +555,9 @@ func specC12(c *Case, ps []*Probe) []string {
 	if !strings.HasPrefix(u.Impl["U"], "ok:") {
 		return []string{"decoding the JSON encoding of a parse result failed: " + u.Impl["U"]}
 	}
+	if u.UJ != nil && u.UJ.Reuse != "" {
+		out = append(out, "decoding the same bytes into a previously used destination gives a different expression")
+	}
 	if u.Impl["V"] != "1" {
 		out = append(out, "the decoded expression does not validate")
 	}
@@ -744,7 +747,7 @@ func escapeWord(w string) string {
 	return out
 }
 
-var quoteAlphabet = []string{"a", "b", "Z", "0", "7", " ", "  ", "\t", "\n", "*", "?", "/", "\\", "'", "''", ":", "=", "(", ")", "[", "]", "{", "}", "+", "-", "~", "^",
+var quoteAlphabet = []string{"\ufffd", "\ufffe", "\u0085", "a", "b", "Z", "0", "7", " ", "  ", "\t", "\n", "*", "?", "/", "\\", "'", "''", ":", "=", "(", ")", "[", "]", "{", "}", "+", "-", "~", "^",
 	"AND", "OR", "NOT", "TO", "and", "<", ">", ",", ";", "--", "/*", "*/", "$$", "%", "_", "|", ".", "é", "日本", "😀", "ſ", "\u00a0", "%!s(x)", "E'", "5", "-5", "1.5", "NaN", "null"}
 
 // genQuoted (C08): texts w without a double quote, written between double quotes as a field's value, as a bare
